@@ -182,6 +182,25 @@ def check(rep, F, tier, replay=None):
         if extra:
             rep.violation("DEC-reject", "%s|%s" % (F.key(fid), ",".join(extra)), "%s rejects input with %s on its own: keys that the library generates or derives and that fail this hand-written test no longer survive from_bytes(as_bytes()) / hex / bech32" % (F.key(fid), ", ".join(extra)), {})
     rep.floor("raw key / signature decoders inventoried", 10, n_dec)
+    # EMIP-min: the shortest ciphertext decrypt accepts is the one encrypt produces for an empty plaintext
+    from ruleutil import gate_min
+    rep.rule("EMIP-min", "decrypt_with_password goes on to decrypt exactly when the input holds at least salt + nonce + tag (METADATA_SIZE) bytes: the encryption of an empty plaintext has exactly that length and must decrypt")
+    fid = find_fn(rep, F, "emip3::decrypt_with_password")
+    msz = [int(v["val"]) for k, v in F.consts.items() if k.endswith("password_encryption_parameter::METADATA_SIZE")]
+    if fid and len(msz) == 1:
+        fn = F.fns[fid]
+        sites = [c.bb for c in F.calls(fid) if "chacha20poly1305" in (c.to or "").lower() or (c.to or "").endswith("::decrypt")]
+        rep.inst("EMIP-min")
+        if not sites:
+            rep.lost("decrypt call not found in decrypt_with_password")
+        else:
+            lo, why = gate_min(F, fid, sites[0])
+            if lo is None:
+                rep.lost("decrypt_with_password: no constant length gate found before the decryption (%s)" % why)
+            elif lo != msz[0]:
+                rep.violation("EMIP-min", "decrypt_with_password|min %d" % lo, "decrypt_with_password only decrypts inputs of at least %d bytes; salt + nonce + tag are %d bytes, which is exactly what encrypt_with_password returns for an empty plaintext: that ciphertext %s" % (lo, msz[0], "is rejected as 'Missing input data'" if lo > msz[0] else "length is not checked and the slices below would panic"), {})
+    elif fid:
+        rep.lost("METADATA_SIZE constant not found")
     return rep.finish(
         EXPLANATION,
         ["cryptoxide and ed25519-bip32 implement their primitives correctly", "ChaChaPoly1305::decrypt returns true exactly when the tag verifies"],
